@@ -372,6 +372,38 @@ Theorem C06_evm_exp_math : forall a e, 0 <= e -> evm_exp a e = evm_exp_math a e.
 Proof. exact (evm_exp_math_eq (fun _ => 0) (fun _ => false)). Qed.
 Print Assumptions C06_evm_exp_math.
 
+(* HalmosBool(<value>): __new__ followed by __init__ on whatever __new__ returned (Model/BitVecModel.v:
+   hb_ctor; the presence of the `if self is TRUE or self is FALSE: return` guard at the top of __init__ is
+   hb_init_guards_singletons, regenerated from bitvec.py; simp = z3's simplify, any function).
+   Full strength: for EVERY value passed - python bool, any z3 term (also one that simplifies to
+   true / false, for which __new__ hands back the singleton), str, an existing HalmosBool, a
+   HalmosBitVec - the TRUE and FALSE singletons keep con_val = True / False, sym_val = None *)
+Theorem C06_singletons_preserved : forall simp a h,
+  hT h = obj_true /\ hF h = obj_false ->
+  hT (snd (hb_ctor simp hb_init_guards_singletons a h)) = obj_true /\
+  hF (snd (hb_ctor simp hb_init_guards_singletons a h)) = obj_false.
+Proof. exact P_singletons_preserved. Qed.
+Print Assumptions C06_singletons_preserved.
+
+(* ... and the object returned denotes the value passed (simplify preserving denotation) *)
+Theorem C06_bool_ctor_denotes : forall ev eb simp a h,
+  (forall c, beval ev eb (simp c) = beval ev eb c) ->
+  hT h = obj_true /\ hF h = obj_false ->
+  obj_den ev eb (hget (snd (hb_ctor simp hb_init_guards_singletons a h))
+                      (fst (hb_ctor simp hb_init_guards_singletons a h))) = arg_den ev eb h a.
+Proof. exact P_bool_ctor_denotes. Qed.
+Print Assumptions C06_bool_ctor_denotes.
+
+(* non-vacuity of the two statements above: the case they were false in before the repair (a term that
+   simplifies to true, no guard) really overwrites TRUE in the model, and the guard prevents it *)
+Example C06_singleton_guard_nonvacuous :
+  let h0 := {| hT := obj_true; hF := obj_false; hN := {| o_con := None; o_sym := None |};
+               hO := {| o_con := None; o_sym := Some (BVar 1) |} |} in
+  singles_ok h0 /\
+  ~ singles_ok (snd (hb_ctor (fun _ => BConst true) false (ATerm (BVar 0)) h0)) /\
+  singles_ok (snd (hb_ctor (fun _ => BConst true) true (ATerm (BVar 0)) h0)).
+Proof. exact singleton_unguarded_corrupts. Qed.
+
 (* non-vacuity: reachable, non-trivial instances of the hypotheses and of each repaired defect *)
 Example C06_nonvacuous :
   let ev := fun _ : Z => 2 ^ 255 + 3 in
